@@ -72,6 +72,18 @@ Lemma dup_info_rollback_witness :
     ARet (-2) (topo1 (Some "m") [("Y", "b"); ("Y", "a")]).
 Proof. vm_compute. split; reflexivity. Qed.
 
+(* two topologies that differ only in the attributes of a memory-side cache:
+   TOO_COMPLEX since fix c1b2102 (before: 0 with an empty diff) *)
+Definition mc_T (attr : string) : topo :=
+  mkT (Obj (mk_obj 0 0 HWLOC_OBJ_MACHINE (Some "m") 0 0 [])
+           [] [Obj (mkA (-8) 0 HWLOC_OBJ_MEMCACHE None 0 no_sets None attr 0 0 [])
+                   [] [leaf (mk_obj (-3) 0 HWLOC_OBJ_NUMANODE None 5 5 [])] [] []] [] [])
+      1 None None [] [] [] [].
+Lemma memcache_regression :
+  diff_build 0 (mc_T "size=1MB") (mc_T "size=2MB") = BRet 1 [ETooComplex (-8) 0] /\
+  diff_build 0 (mc_T "size=1MB") (mc_T "size=1MB") = BRet 0 [].
+Proof. vm_compute. split; reflexivity. Qed.
+
 (* identical topologies with a heterogeneous distances matrix: rc = 1 *)
 Definition het_T := mkT (t_root rb_T) 1 None None [] [(true, "d")] [] [].
 Lemma hetero_witness : diff_build 0 het_T het_T = BRet 1 [ETooComplex 0 0].
